@@ -42,4 +42,24 @@ Definition adept_symm_mv (row_lower_col_upper : bool) (n : Z) (mem : Z -> T) (le
 Definition symm_mv_spec (row_lower_col_upper : bool) (n : Z) (mem : Z -> T) (left_ptr left_offset x0 incx : Z) (i : Z) : T :=
   let e := if row_lower_col_upper then SymLo else SymUp in
   zsum n (fun j => omul O (mem (left_ptr + index e 0 0 i j left_offset)) (mem (x0 + j * incx))).
+
+(* ---- symmetric matrix x matrix: ?symm, column-major.  Side Left: C (M x N) = A (M x M, symmetric) B (M x N);
+   side Right: C (M x N) = B (M x N) A (N x N).  Cell (r,c) of C, which is stored at c0 + r + c*ldc *)
+Definition f_symm_cell (left upper : bool) (M N : Z) (mem : Z -> T) (a0 lda b0 ldb : Z) (r c : Z) : T :=
+  if left then zsum M (fun k => omul O (symv_read upper mem a0 lda r k) (mem (b0 + k + c * ldb)))
+  else zsum N (fun k => omul O (mem (b0 + r + k * ldb)) (symv_read upper mem a0 lda k c)).
+Definition f_symm_addr (c0 ldc r c : Z) : Z := c0 + r + c * ldc.
+(* the logical cell (i,j) of the answer: for a row-major call the Fortran routine works on the transposed problem *)
+Definition cppblas_symm_cell (row_major left upper : bool) (M N : Z) (mem : Z -> T) (a0 lda b0 ldb : Z) (i j : Z) : T :=
+  if row_major then let '(l, u, m, n) := symm_row_major_args left upper M N in f_symm_cell l u m n mem a0 lda b0 ldb j i
+  else let '(l, u, m, n) := symm_col_major_args left upper M N in f_symm_cell l u m n mem a0 lda b0 ldb i j.
+Definition cppblas_symm_addr (row_major : bool) (c0 ldc i j : Z) : Z := if row_major then f_symm_addr c0 ldc j i else f_symm_addr c0 ldc i j.
+(* matmul_symmetric (matrix right operand): the call is row-major iff the right operand is row-contiguous *)
+Definition adept_symm_mm (row_lower_col_upper right_row_contiguous : bool) (M N : Z) (mem : Z -> T) (left_ptr left_offset b0 right_stride : Z) (i j : Z) : T :=
+  cppblas_symm_cell right_row_contiguous symm_call_side_left (symm_uplo_of row_lower_col_upper right_row_contiguous) M N mem left_ptr left_offset b0 right_stride i j.
+Definition right_elem (right_row_contiguous : bool) (mem : Z -> T) (b0 right_stride k j : Z) : T :=
+  if right_row_contiguous then mem (b0 + k * right_stride + j) else mem (b0 + k + j * right_stride).
+Definition symm_mm_spec (row_lower_col_upper right_row_contiguous : bool) (M : Z) (mem : Z -> T) (left_ptr left_offset b0 right_stride : Z) (i j : Z) : T :=
+  let e := if row_lower_col_upper then SymLo else SymUp in
+  zsum M (fun k => omul O (mem (left_ptr + index e 0 0 i k left_offset)) (right_elem right_row_contiguous mem b0 right_stride k j)).
 End Band.
